@@ -180,6 +180,10 @@ func ExecSeqHook(w coraza.WAF, req *Req, seq []string, after func(i int, tx type
 		for _, kv := range req.Headers {
 			tx.AddRequestHeader(kv.K, kv.V)
 		}
+		if req.RawBody != "" {
+			tx.AddRequestHeader("Content-Type", "application/x-www-form-urlencoded")
+		}
+		bodySent := false
 		if seq == nil {
 			seq = []string{"h", "b", "H", "B", "L"}
 		}
@@ -196,6 +200,10 @@ func ExecSeqHook(w coraza.WAF, req *Req, seq []string, after func(i int, tx type
 			}
 			bgBefore = ev.phaseBegin
 			evMu.Unlock()
+			if c == "b" && req.RawBody != "" && !bodySent {
+				bodySent = true
+				tx.WriteRequestBody([]byte(req.RawBody))
+			}
 			switch c {
 			case "w", "W":
 				body := []byte("a=1")
